@@ -530,7 +530,7 @@ func (m c04) acceptedReq(rc reqCodec, obj reqObj, canon func() []byte, b []byte,
 func (m c04) requestCase(rc reqCodec, r *core.Rand, i int) {
 	c := m.c
 	enc := rc.gen(r, i)
-	if i%5 == 3 && len(enc) >= 40 && (rc.name != "type3.InnerTokenRequest" || len(enc) >= 262) {
+	if i%5 == 3 && len(enc) >= 40 && (rc.name != "type3.InnerTokenRequest" || len(enc) >= 259+4) {
 		// a value whose last data bytes look like text framing (line ends, blanks, NULs, base64 padding): they are data
 		tail := [][]byte{[]byte("\r\n"), []byte("\n"), []byte(" "), {0, 0}, []byte("=="), []byte("\r\n\r\n"), {0}, []byte("\t")}[(i/5)%8]
 		copy(enc[len(enc)-len(tail):], tail)
